@@ -2,7 +2,7 @@
 From Coq Require Import QArith.
 From stdpp Require Import strings gmap sets fin_sets pretty.
 From CG Require Import Proofs.SensitivityProofs Proofs.SensitivityModel.
-From CG Require Model.Logic Proofs.LogicOracle Proofs.LogicPopAll.
+From CG Require Model.Logic Proofs.LogicOracle Proofs.LogicPopAll Proofs.LogicCert Proofs.LogicCertPop.
 Open Scope string_scope.
 Open Scope nat_scope.
 
@@ -135,4 +135,24 @@ Lemma popcount_discharge m PC W : Logic.popcount m = Ok PC → clog2 (m + 1) = O
   pc_inputs (c_g PC) m ∧ SensitivityProofs.popcount_correct (c_g PC) m W.
 Proof.
   intros H HW. split; [by apply popcount_pc_inputs|]. apply popcount_pc_correct; [done|]. by eapply popcount_outputs_width.
+Qed.
+
+(* logic.popcount(m) is combinational (C13: popcount_combinational): the certificate the sensitivity circuit needs of it *)
+Lemma popcount_pc_cert m PC : Logic.popcount m = Ok PC → pc_cert (c_g PC) m.
+Proof.
+  intros HPC. assert (Hm : 1 ≤ m). { destruct m; [discriminate HPC|lia]. }
+  destruct (LogicCertPop.popcount_combinational m PC Hm HPC) as (Hcl & Hac & Hfree).
+  split; [done|done|exact Hfree|by apply popcount_pc_inputs].
+Qed.
+(* props.sensitivity over the model's sensitivity circuit built with logic.popcount: full, only the solver is assumed *)
+Theorem sensitivity_popcount_full (solve : list (string * bool) → bool) C n ord PC T W w :
+  comb (c_g C) → Logic.popcount (length ord) = Ok PC →
+  sensitivity_transform C n ord PC = Ok T →
+  clog2 (length ord) = Ok w → clog2 (length ord + 1) = Ok W →
+  (∀ k, k ≤ length ord → let asm := asm_of (int_to_bin_le k w) in
+     solve asm = true ↔ ∃ v, consistent (c_g T) v ∧ Forall (λ p : string * bool, v p.1 = p.2) asm) →
+  ∃ k, search solve w (length ord) = Ok k ∧ is_sensitivity (c_g C) n ord k.
+Proof.
+  intros Hc HPC HT Hw HW Hsolve. destruct (popcount_discharge _ _ _ HPC HW) as [_ Hpop].
+  by eapply (sensitivity_model_full solve C n ord PC T W w Hc (popcount_pc_cert _ _ HPC) Hpop HT Hw HW).
 Qed.
